@@ -3,7 +3,7 @@ language / cross format).  Nodes: Python reader/writer/relay in-process, C++ rel
 binary, joined by the simulated channel; oracle: the independent reference codec."""
 from __future__ import annotations
 
-import io, json, os, sys
+import io, os, json, os, sys
 
 VERIF = os.path.dirname(os.path.dirname(os.path.abspath(__file__)))
 sys.path.insert(0, VERIF)
@@ -228,8 +228,14 @@ def run_pipeline(cx: Ctx, proto, vals, parts, pipeline: str, rng=None, cpp_batch
             fin = {"b": "binary", "j": "ndjson"}[hop[3]]
             fout = {"b": "binary", "j": "ndjson"}[hop[5]]
             assert fmt == fin, (pipeline, fmt, fin)
+            fifo_ = None
             if fin == "binary":
-                stream = P.binary_input(data, rng, chunk_mode)
+                if rng is not None and rng.fork("fifo", hop).chance(0.12):
+                    # the reader is given a path name, and the path names a pipe
+                    fifo_ = stream = P.fifo_path_input(bytes(data), rng.fork("fifo_sizes", hop), model.dir)
+                    cx.bump("py_binary_read_from_a_named_pipe_by_path")
+                else:
+                    stream = P.binary_input(data, rng, chunk_mode)
             else:
                 text_ = data if isinstance(data, str) else data.decode("utf-8")
                 # (the NDJSON reader takes text streams and - its signature says - buffered binary ones)
@@ -238,8 +244,15 @@ def run_pipeline(cx: Ctx, proto, vals, parts, pipeline: str, rng=None, cpp_batch
                     cx.bump("py_ndjson_read_from_a_binary_stream")
                 else:
                     stream = io.StringIO(text_)
-            with runner.time_limit(60):
-                out, err = P.relay(model, proto, fin, stream, fout)
+            try:
+                with runner.time_limit(60):
+                    out, err = P.relay(model, proto, fin, stream, fout)
+            finally:
+                if fifo_ is not None:
+                    try:
+                        os.unlink(fifo_)
+                    except OSError:
+                        pass
             if err is not None:
                 return "%s raised %r" % (hop, err)
             data, fmt = out, fout
